@@ -409,6 +409,12 @@ def run(pid, tier, seed):
         for us in sorted(set(jtruth)):
             t = (us // 10**6, (us % 10**6) * 1000)
             ojobs += [("u.journal", None, t), ("u.journal", t, None), ("u.journal", t, t), ("u.journal", (t[0], t[1] + 1000), None)]
+        # windows that close before the first record / open after the last one, and between two records: nothing selected
+        for fname_, lo_, hi_ in (("k.evtx", min(pts), max(pts)), ("nc.wtmp", min(nc), max(nc)),
+                                 ("u.journal", (min(jtruth) // 10**6, 0), (max(jtruth) // 10**6 + 1, 0))):
+            ojobs += [(fname_, None, (lo_[0] - 10, 0)), (fname_, (lo_[0] - 20, 0), (lo_[0] - 10, 0)), (fname_, (hi_[0] + 10, 0), None),
+                      (fname_, (hi_[0] + 10, 0), (hi_[0] + 20, 0))]
+        ojobs += [("nc.wtmp", (gen.BASE + 10, 0), (gen.BASE + 800, 0))]
 
         def odo(ij):
             i, (fname, a, b) = ij
@@ -442,6 +448,10 @@ def run(pid, tier, seed):
             if got != want:
                 rep.violation("other:window:%s" % fname, "%s -a %s -b %s (spelled %s): selected %s..., the window holds %s..."
                               % (fname, a, b, sp[0], got[:6], want[:6]), rec)
+            elif not want and (rr.rc != 0 or b"ERROR" in rr.err):
+                # "an empty selection prints nothing and is not an error"
+                rep.violation("other:empty-is-error:%s" % fname, "%s -a %s -b %s: nothing lies in the window, and the run calls it an error (rc=%s, %r)"
+                              % (fname, a, b, rr.rc, rr.err[:160]), rec)
 
         def do(ic):
             i, (case, msgs) = ic
@@ -457,8 +467,8 @@ def run(pid, tier, seed):
                               "-a %s -b %s: stdout differs from Select at byte %d" % (case.note["after"], case.note["before"],
                                                                                        first_diff(rr.out, case.expected)),
                               case.replay_record(rr))
-            elif rr.rc != 0:
-                rep.violation("e2e:exit-status", "exit status %d for a window (empty selection is not an error)" % rr.rc,
+            elif rr.rc != 0 or (not case.expected and b"ERROR" in rr.err):
+                rep.violation("e2e:exit-status", "exit status %d / %r for a window (empty selection is not an error)" % (rr.rc, rr.err[:160]),
                               case.replay_record(rr))
         rep.coverage = {
             "states": r.distinct, "transitions": r.generated, "traces_validated_against_impl": accepted_traces,
